@@ -4,7 +4,10 @@
 // under the `verif` build tag; it adds no behaviour to the package.
 package column
 
-import "math"
+import (
+	"math"
+	"reflect"
+)
 
 type vAssumeFailed struct{}
 
@@ -48,6 +51,18 @@ func vSame[T comparable](a, b T) bool {
 		return math.Float64bits(x) == math.Float64bits(any(b).(float64))
 	}
 	return a == b
+}
+
+// vDistinctBacking reports that two slices do not share memory.
+func vDistinctBacking(a, b any) bool {
+	x, y := reflect.ValueOf(a), reflect.ValueOf(b)
+	if x.Cap() == 0 || y.Cap() == 0 {
+		return true
+	}
+	px, py := x.Pointer(), y.Pointer()
+	ex := px + uintptr(x.Cap())*x.Type().Elem().Size()
+	ey := py + uintptr(y.Cap())*y.Type().Elem().Size()
+	return ex <= py || ey <= px
 }
 
 // vCallCount is ghost state: how often the (unknown) function value f has been called so far.
